@@ -5,4 +5,4 @@ SEED_SRC=$WT /verif/tools/seed_take.sh $P $N "$4" "$5" || exit 1
 /verif/tools/seed_confirm.sh ${P}r$N /verif/seeded/$P-$N
 grep -n "build rc\|tests passed\|demo rc\|PATCH" /verif/seeded/$P-$N/confirm.log
 git -C /repo worktree remove --force $WT
-python3 /verif/tools/seed_eval.py /verif/seeded/$P-$N | cut -c1-160
+python3 ${VERIF_EVAL:-/verif}/tools/seed_eval.py /verif/seeded/$P-$N | cut -c1-160
